@@ -82,19 +82,32 @@ func runC39(c *an.Ctx) {
 			}
 		}
 		// height guard is a side condition: blocks at or below the current height return early
-		v := an.Guarded(c.P, fn, []*an.Guard{vh}, func(in ssa.Instruction) bool { return isCallTo(in, objs...) }, false)
+		// the effects: the named helpers, or what the header-cache helpers do written in place (delete / insert on
+		// the store's headerCache map)
+		isAct := func(in ssa.Instruction) bool {
+			if isCallTo(in, objs...) {
+				return true
+			}
+			switch x := in.(type) {
+			case *ssa.MapUpdate:
+				if f := fieldOfLoad(x.Map); f != nil && f.Name() == "headerCache" && in.Parent() == fn {
+					return true
+				}
+			case *ssa.Call:
+				if bi, isB := x.Call.Value.(*ssa.Builtin); isB && bi.Name() == "delete" && in.Parent() == fn {
+					if f := fieldOfLoad(x.Call.Args[0]); f != nil && f.Name() == "headerCache" {
+						return true
+					}
+				}
+			}
+			return false
+		}
+		v := an.Guarded(c.P, fn, []*an.Guard{vh}, isAct, false)
 		c.Check(v.Holds && v.GuardSites == 1 && v.ActionSites >= len(objs), "guard-verifyHeader|"+tc.fn, tc.fn+" touches the ledger ("+strings.Join(tc.actions, ", ")+") only after verifyHeader succeeded",
 			c.P.Rel(fn.Pos()), v.Witness)
 		// the next-height test guards too
-		next := &an.Guard{Name: "height != next", FailValue: an.ATrue, MatchValue: func(v ssa.Value) bool {
-			b, ok := v.(*ssa.BinOp)
-			if !ok || b.Op != token.NEQ {
-				return false
-			}
-			f := fieldOfLoad(b.X)
-			return f != nil && f.Name() == "Height"
-		}}
-		v = an.Guarded(c.P, fn, []*an.Guard{next}, func(in ssa.Instruction) bool { return isCallTo(in, objs...) }, false)
+		next := relGuards("height != next", token.NEQ, func(x ssa.Value) bool { f := fieldOfLoad(x); return f != nil && f.Name() == "Height" }, func(y ssa.Value) bool { f := fieldOfLoad(y); return f == nil || f.Name() != "Height" })
+		v = an.Guarded(c.P, fn, next, isAct, false)
 		c.Check(v.Holds && v.GuardSites >= 1, "guard-height|"+tc.fn, tc.fn+" touches the ledger only for the next expected height", c.P.Rel(fn.Pos()), v.Witness)
 	}
 	// 2. saveBlock
